@@ -47,9 +47,11 @@ class Check(BaseCheck):
             nv = len(c["v"])
             if len(np.unique(c["t"])) == nv and nv >= 6:
                 yield dict(kind="tri", v=c["v"], t=c["t"], k=int(min(nv - 2, rng.integers(3, 7))), lump=bool(rng.random() < 0.4), name=c["name"], pres=c.get("pres"), vdtype=c.get("vdtype"))
-        for c in gen.tet_stream(seed + 102, max(2, n // 3), "small", modifiers=False):
+        for kk, c in enumerate(gen.tet_stream(seed + 102, max(3, n // 3), "small", modifiers=False)):
             nv = len(c["v"])
             if len(np.unique(c["t"])) == nv and nv >= 6:
+                if kk % 2:          # tetrahedra of mixed orientation (Solver and normalize_ev must not depend on it)
+                    c = dict(c, t=gen.flip_some(rng, c["t"], 0.5), name=c["name"] + "+mixed-orientation")
                 yield dict(kind="tet", v=c["v"], t=c["t"], k=int(min(nv - 2, 4)), lump=bool(rng.random() < 0.4), name=c["name"], pres=c.get("pres"), vdtype=c.get("vdtype"))
 
     def correspond(self, drv, stats):
